@@ -208,6 +208,23 @@ func (e *enc) run(fr *frame, atEntry Term) {
 				mems = append(mems, fr.memOut[p])
 				preds = append(preds, p)
 			}
+			// what a cell is known to point to is part of the path state: kept only if all incoming paths agree
+			e.ptrIn = nil
+			for i, p := range preds {
+				po := fr.ptrOut[p]
+				if i == 0 {
+					e.ptrIn = map[string]*Loc{}
+					for k, v := range po {
+						e.ptrIn[k] = v
+					}
+					continue
+				}
+				for k, v := range e.ptrIn {
+					if po[k] != v {
+						delete(e.ptrIn, k)
+					}
+				}
+			}
 			if len(conds) == 0 {
 				fr.at[b] = "false"
 				e.mem = copyMem(e.mem)
@@ -252,6 +269,14 @@ func (e *enc) run(fr *frame, atEntry Term) {
 		fr.names[b] = fr.curNames
 		fr.atEnd[b] = fr.cur
 		fr.memOut[b] = copyMem(e.mem)
+		if fr.ptrOut == nil {
+			fr.ptrOut = map[*ssa.BasicBlock]map[string]*Loc{}
+		}
+		po := map[string]*Loc{}
+		for k, v := range e.ptrIn {
+			po[k] = v
+		}
+		fr.ptrOut[b] = po
 		// back edges out of this block: invariant preservation
 		for _, s := range b.Succs {
 			if fr.backedge[[2]int{b.Index, s.Index}] {
@@ -598,6 +623,15 @@ func (e *enc) loopHeader(fr *frame, h *ssa.BasicBlock) {
 	stored := e.loopStores(fr, body)
 	if os.Getenv("VERIF_DEBUG_LOOPS") != "" {
 		fmt.Fprintf(os.Stderr, "loop %d of %s writes %v allHeap=%v\n", ord, fnFull(fr.fn), sortedKeys(keys), allHeap)
+	}
+	for pk := range e.ptrIn {
+		base := pk
+		if i := strings.Index(pk, "|"); i >= 0 {
+			base = pk[:i]
+		}
+		if keys[base] || (allHeap && strings.HasPrefix(base, "H:")) {
+			delete(e.ptrIn, pk) // the cell is reassigned somewhere in the loop
+		}
 	}
 	for _, k := range sortedKeys(e.mem) {
 		if strings.HasPrefix(k, "AL:") && loopAllocates(body) {
@@ -1272,6 +1306,7 @@ func (e *enc) instr(b *ssa.BasicBlock, in ssa.Instruction) {
 			e.aliasMapFields(l, src, l.ty, 0)
 		}
 		// storing a pointer-to-cell: remember what the cell points to
+		delete(e.ptrIn, locKey(l)) // whatever the cell was known to point to is overwritten
 		if vl, ok := fr.loc[x.Val]; ok {
 			if e.ptrIn == nil {
 				e.ptrIn = map[string]*Loc{}
@@ -1472,7 +1507,10 @@ func (e *enc) instr(b *ssa.BasicBlock, in ssa.Instruction) {
 		for _, r := range x.Results {
 			vals = append(vals, e.value(r))
 		}
-		ri := retInfo{at: fr.cur, vals: vals, mem: copyMem(e.mem), pos: x.Pos()}
+		ri := retInfo{at: fr.cur, vals: vals, mem: copyMem(e.mem), pos: x.Pos(), ptr: map[string]*Loc{}}
+		for k, v := range e.ptrIn {
+			ri.ptr[k] = v
+		}
 		for i, r := range x.Results {
 			if l, ok := fr.loc[r]; ok {
 				if ri.locs == nil {
